@@ -5,29 +5,32 @@ from vf.core import Shard
 PROPERTY = 'C02'
 RULE = ('end-to-end runs (M-serial) on generated reference sets with arbitrary ids, one-decimal coordinates, large '
         'query offsets and trailing lengths, classes clean/noisy/chimeric/indel/partial, four output modes, non-default '
-        'parameters; every record of every XMAP file is compared, from the file text only, with the CMAP text parsed '
+        'parameters, plus one file of more than 1000 (quick) / 5000 (thorough) records; every record of every XMAP file is compared, from the file text only, with the CMAP text parsed '
         'by an independent parser (ids, RefLen, QryLen, Ref/Qry start/end, orientation ordering, XmapEntryID 1..n). '
         'Non-trivial = reverse-strand, second-pass (AlignedRest True) or joined record; distinct by content hash.')
 ASSUMPTIONS = ['only records that satisfy C01 are judged (field semantics of an invalid matching are undefined); the '
                'number skipped is reported as skipped-invalid-matching',
                'QryLen may be last-first or last-first+1 (the +1 convention is pinned by C17)',
                'tolerance 0.051 for one-decimal formatting']
-MINIMUMS = {'records-judged': {'quick': 1500, 'thorough': 20000}, 'reverse-records': {'quick': 300, 'thorough': 4000},
+MINIMUMS = {'files-with-1000+-records': 1, 'records-judged': {'quick': 1500, 'thorough': 20000}, 'reverse-records': {'quick': 300, 'thorough': 4000},
             'second-pass-records': {'quick': 100, 'thorough': 1500}, 'joined-records': {'quick': 20, 'thorough': 300}}
 CLASSES = ['clean', 'noisy', 'noisy', 'chimeric', 'indel', 'partial', 'partial']
 
 
 def plan(tier, seed):
     n, c = (16, 25) if tier == 'quick' else (64, 95)
-    return [{'name': 'e2e%d' % i, 'kind': 'e2e', 'seed': seed, 'shard': i, 'cases': c} for i in range(n)]
+    return [{'name': 'big', 'kind': 'big', 'seed': seed, 'nq': 1010 if tier == 'quick' else 5100}] + \
+        [{'name': 'e2e%d' % i, 'kind': 'e2e', 'seed': seed, 'shard': i, 'cases': c} for i in range(n)]
 
 
 def judge(case, wd, sh):
-    obs = e2e.observe(case, wd, trace=False, cands=False)
+    obs = e2e.observe(case, wd, trace=False, cands=False, serial=not case.get('pool'), cpus=8 if case.get('pool') else 1)
     if not e2e.note_run(case, obs, sh):
         return
     viol = []
     for suf, recs in obs.records.items():
+        if len(recs) > 1000:
+            sh.count('files-with-1000+-records')
         ids = [r['id'] for r in recs]
         if ids != list(range(1, len(recs) + 1)):
             viol.append(('XmapEntryID', 'XmapEntryID sequence %s in file %r' % (ids[:10], suf), {'file': suf}))
@@ -59,6 +62,14 @@ def judge(case, wd, sh):
 
 
 def run_shard(spec):
+    if spec['kind'] == 'big':
+        from vf import core
+        from vf.core import rng_for
+        sh = Shard()
+        case = gen.big_file_case(rng_for('C02big', spec['seed']), spec['nq'])
+        case['kind'] = 'e2e'
+        core.isolated(judge, sh, case, spec['workdir'])
+        return sh
     return e2e.campaign('C02', spec, Shard(), judge, CLASSES)
 
 
